@@ -25,6 +25,8 @@ for mp in sorted(glob.glob(os.path.join(V, "seeded", "*", "meta.json"))):
         hits = [r for r in rs if r["rc"] == 1]
         m["runs"] = rs
         m["detected_now"] = rs and any(r["rc"] == 1 for r in rs) and (rs[-1]["rc"] == 1 or any(r["rc"] == 1 and r["by"] != m["property"] for r in rs))
+        if m.get("superseded"):
+            m["detected_now"] = None
         if hits:
             last = hits[-1]
             m["detected_by_now"] = "./check %s: %s%s" % (last["by"], ", ".join(last["tags"]), " (no-failing-input-found)" if last["noinput"] else "")
